@@ -29,7 +29,9 @@ LEVEL_TEXT = ("Coq theorems over Gallina models of the interface layer. Componen
               "that every address of a resolved instance was learned on an interface that is not dropped (no entry "
               "enabled, all reported by the OS), and that within one IP check an address is never withdrawn from "
               "the services after it was added (IpDel after IpAdd of an address the OS has on one entry, in an "
-              "iteration without enable/disable calls). The daemon model is tied to the Rust by a differential run of the "
+              "iteration without enable/disable calls), and that the last IpAdd/IpDel event of an iteration about an "
+              "address is not IpDel when the OS table has the address on an entry enabled throughout the iteration "
+              "(finding C18-del-of-held-address). The daemon model is tied to the Rust by a differential run of the "
               "real daemon in the simulated world, with the checker chk_C18 run on the implementation's trace")
 TECHNIQUE = ("machine-checked proof in Coq (selection law by induction over the selection list, bitwise subnet law, "
              "membership characterisations of the cache operations) + model/implementation correspondence on the "
@@ -49,7 +51,11 @@ RULE = ("histories of 8-18 iterations over topologies of 1-3 interfaces (+ optio
         "hears announcements with A and AAAA records; it is then disabled by name / index / family / address / All "
         "or disappears from the OS table; then a fresh browse, a TXT update or the announcement again on another "
         "interface makes the daemon report the instance again; sometimes the interface comes back and is asked "
-        "once more.  The IpAdd / IpDel events of an iteration are compared as a set plus, for an address with "
+        "once more.  Family held (160 histories): an address the daemon holds shows up on another entry (moved to "
+        "another interface, other prefix length, or on two interfaces at once) and an enable/disable call makes the "
+        "daemon take up the new entry before the IP check that drops the old one (or disables one of the two); then "
+        "queries for the auto-address service on the interface that has the address, and unregistration.  "
+        "The IpAdd / IpDel events of an iteration are compared as a set plus, for an address with "
         "several events, their order")
 TRUSTED = [
     "Coq 8.16.1 kernel (coqc); vm_compute only in the non-vacuity Examples",
@@ -429,11 +435,87 @@ def gen_xfam(rng, hid):
     return {"id": hid, "t0": T0, "daemons": [{"seed": 1, "ifaces": pool}], "link": "none", "steps": steps}
 
 
+def gen_held(rng, hid):
+    """family `held`: an address the daemon holds on one entry shows up on another entry (moved to another
+    interface, or the same interface with another prefix length, or present on two interfaces at once) and an
+    enable / disable call makes the daemon take up the new entry BEFORE the IP check that drops the old one
+    (or a disable call drops one of the two).  A service with automatic addresses must keep the address as long
+    as an enabled entry of the OS table has it: it is asked for on the interface that has it afterwards and
+    unregistered (goodbye)."""
+    m64 = "ffff:ffff:ffff:ffff::"
+    ifs = [mk_iface(k, rng.choice(["6", "46", "46"]), rng) for k in range(rng.choice([2, 2, 3]))]
+    pool = [e for i in ifs for e in i]
+    t = T0
+    svc = gen_service(rng, 0, pool, auto=True)
+    first = [{"op": "monitor", "ch": "m"}, {"op": "set_ip_check_interval", "secs": 1}, {"op": "register", "svc": svc}]
+    if rng.random() < 0.3:
+        first.insert(2, {"op": rng.choice(["enable_interface", "disable_interface"]), "kinds": [gen_kind(rng, pool)]})
+    steps = [{"t": t, "d": 0, "calls": first}]
+
+    def step(dt, **kw):
+        nonlocal t
+        t += dt
+        st = {"t": t, "d": 0}
+        st.update(kw)
+        steps.append(st)
+
+    step(5100)                                               # the first IP check (5 s after the start)
+    a = rng.choice(ifs)
+    e = rng.choice(a)                                        # the entry whose address shows up elsewhere
+    v4 = ":" not in e["addr"]
+    others = [i for i in ifs if i is not a]
+    how = rng.choice(["prefix"] if v4 else ["moved", "moved", "prefix", "both"])
+    new = dict(e)
+    if how == "prefix":
+        new["mask"] = ("255.255.255.128" if e["mask"] != "255.255.255.128" else "255.255.255.0") if v4 else "ffff:ffff:ffff::"
+        cur = [x for x in pool if x is not e] + [new]
+    else:
+        o = rng.choice(others)[0]
+        new["index"], new["name"] = o["index"], o["name"]
+        cur = ([x for x in pool if x is not e] if how == "moved" else list(pool)) + [new]
+    if rng.random() < 0.5:
+        rng.shuffle(cur)
+    step(rng.choice([100, 200]), ifaces=cur)
+    # the call that makes the daemon look at the fresh table before the next IP check
+    if how == "both" and rng.random() < 0.6:                 # one of the two entries is disabled
+        d = rng.choice([e, new])
+        kind = rng.choice([{"k": "Name", "v": d["name"]}, {"k": "IndexV6", "v": d["index"]}])
+        call = {"op": "disable_interface", "kinds": [kind]}
+    else:
+        call = rng.choice([{"op": "enable_interface", "kinds": [{"k": "All"}]},
+                           {"op": "enable_interface", "kinds": [{"k": "Name", "v": new["name"]}]},
+                           {"op": "enable_interface", "kinds": [{"k": "IPv4" if v4 else "IPv6"}]},
+                           {"op": "disable_interface", "kinds": [{"k": "Name", "v": "eth9"}]},
+                           {"op": "disable_interface", "kinds": [{"k": "LoopbackV4"}]}])
+    step(rng.choice([100, 300]), calls=[call])
+    step(1100)                                               # the IP check that drops the old entry
+    # is the service still there with the address?
+    for _ in range(rng.choice([1, 2, 3])):
+        q = dnsgen.Packet()
+        r = rng.random()
+        if r < 0.5:
+            q.question(split_ty(svc["ty"])[0], 12)
+        elif r < 0.8:
+            q.question(svc["host"], rng.choice([1, 28, 255]))
+        else:
+            q.question(svc_fullname(svc), rng.choice([33, 255]))
+        on = rng.choice([new, new] + [x for x in cur if x["index"] == new["index"]])
+        qv4 = ":" not in on["addr"]
+        src = peer_of(on, rng)
+        step(rng.choice([300, 1100]),
+             dgrams=[{"if": on["index"], "v4": qv4, "src": ("%s:5353" % src) if qv4 else ("[%s]:5353" % src),
+                      "hex": q.finish(flags=0, ident=0).hex()}])
+    if rng.random() < 0.4:
+        step(300, calls=[{"op": "unregister", "name": svc_fullname(svc), "ch": "u"}])
+    return {"id": hid, "t0": T0, "daemons": [{"seed": 1, "ifaces": pool}], "link": "none", "steps": steps}
+
+
 def generate(rng, tier):
     n = 1500 if tier == "quick" else 30000
     nx = 160 if tier == "quick" else 3000
     return [Case(jdump(gen_history(rng, "c18-%d" % i)), "history") for i in range(n)] + \
-           [Case(jdump(gen_xfam(rng, "c18x-%d" % i)), "xfam") for i in range(nx)]
+           [Case(jdump(gen_xfam(rng, "c18x-%d" % i)), "xfam") for i in range(nx)] + \
+           [Case(jdump(gen_held(rng, "c18h-%d" % i)), "held") for i in range(nx)]
 
 
 # --------------------------------------------------------------------------- observation / model input
